@@ -11,7 +11,15 @@ Oracle (independent of the library's lexer: vf/oracles/rawtext.py):
       own are then replaced by benign ones and the whole text is compared again, so that a layout/context defect is
       not hidden behind a literal defect;
   (2) when the texts agree and parse_sql(inner) succeeds, parse_sql(stored) gives an O-struct-identical tree;
-  (3) all other fields of the embedding statement equal those obtained with the inner text `select 1`.
+  (3) all other fields of the embedding statement equal those obtained with the inner text `select 1`;
+  (4) acceptance, in the one form the quantifier fixes ("any tokens with balanced parentheses"): when the statement is
+      rejected by the grammar although the parentheses of the inner text are balanced and every piece of it is accepted
+      on its own in the same slot (`x <piece> y`), the raw-query grammar has failed to derive a balanced token sequence;
+      the rejecting shape is attributed by neutralising it (an empty pair `()` that is first in the text / in its group
+      gets a content, `(x)`) and embedding again.  All parenthesis shapes up to 6 tokens are enumerated against every
+      embedding;
+  (5) the same statement driven through the exported `get_lexer_parser()` pair (lexer.tokenize -> parser.parse, the way
+      the repository's own tests drive it) stores the same text as through parse_sql().
 """
 import re
 from hypothesis import strategies as st
@@ -27,13 +35,19 @@ RULE = ('cases = (embedding template, statement layout, inner text[, IF-query te
         'derivations of select/union with the rich lexeme pools, and random parenthesis-balanced token sequences '
         '(strings: empty / doubled quotes / backslash escapes / comment-looking / multi-line; @ and @@ variables in all '
         'four quoting forms; numbers like 007, 1.50; nested and empty parentheses; blanks, tabs, newlines, line and '
-        'block comments between tokens); non-trivial = the statement is accepted and the inner text contains a '
+        'block comments between tokens), and every balanced sequence over ( ) and words up to 6 tokens (enumerated against '
+        'every template); each accepted statement is parsed a second time through get_lexer_parser(); non-trivial = the statement is accepted and the inner text contains a '
         'string literal, a variable, a nested parenthesis, a comment or a newline; distinct by (template, inner text, '
         'IF-query text)')
 ASSUMPTIONS = ['"up to whitespace and comments": blanks/comments outside literals may be added, removed or changed '
                'wherever that cannot merge or split tokens (never inside quotes/back-quotes; a blank between two '
                'words/literals or between two operator characters must stay)',
-               'whether an embedding statement is accepted is not judged here (rejected statements are counted)',
+               'acceptance of an embedding statement is judged only where the quantifier decides it: balanced inner text '
+               'whose every piece is accepted on its own in the same slot; other rejections are counted, not judged '
+               '(characters the lexer has no token for are outside "any tokens"); an inner text without any token is '
+               'outside the domain',
+               'get_lexer_parser() is an entry point of the same commands: it is exported by the package and used by the '
+               'repository tests; the statement text given to it is stripped of trailing blanks/semicolons as parse_sql does',
                'inner texts whose literals are unterminated or whose parentheses are unbalanced are outside the domain']
 _QUICK_FLOORS = {'accepted': 3600, 'has:string': 1900, 'has:string-empty': 200, 'has:doubled-quote': 190,
                  'has:backslash': 480, 'has:multiline-string': 40, 'has:variable': 1000, 'has:variable-quoted': 500,
@@ -42,7 +56,10 @@ _QUICK_FLOORS = {'accepted': 3600, 'has:string': 1900, 'has:string-empty': 200, 
                  'command:predictor': 1500, 'command:native': 750, 'command:job': 570, 'command:view': 270,
                  'command:trigger': 150, 'command:evaluate': 150, 'origin:corpus': 240, 'origin:grammar': 850,
                  'origin:tokens': 1200, 'layout:2': 590, 'layout:3': 600, '__nontrivial__': 2800}
-FLOORS = {'quick': _QUICK_FLOORS, 'thorough': {k: v * 8 for k, v in _QUICK_FLOORS.items()}}
+# classes fed mostly by the enumerated parts, which do not grow 8-fold in the thorough tier: same floor in both tiers
+_ENUM_FLOORS = {'origin:paren-shapes': 1500, 'has:empty-pair-first': 600, 'entry2:stored-equal': 1500}
+FLOORS = {'quick': dict(_QUICK_FLOORS, **_ENUM_FLOORS),
+          'thorough': dict({k: v * 8 for k, v in _QUICK_FLOORS.items()}, **_ENUM_FLOORS)}
 N = {'quick': 500, 'thorough': 10000}
 
 # ------------------------------------------------------------------------------------------------ embeddings
@@ -196,7 +213,42 @@ _GLUE = '(),'
 
 _BASE = {}
 _ISO = {}
+_ACC = {}
 _CORPUS = []
+
+
+def paren_shapes(max_len=6):
+    """Every balanced sequence over ( ) and a word with 1..max_len tokens and at least one parenthesis (the words are
+    named a, b, c .. in order, so that a shifted or dropped token shows)."""
+    out = []
+
+    def rec(seq, depth):
+        if seq and depth == 0 and '(' in seq:
+            names = iter('abcdef')
+            out.append([next(names) if t == 'w' else t for t in seq])
+        if len(seq) == max_len:
+            return
+        for t in ('(', ')', 'w'):
+            nd = depth + (t == '(') - (t == ')')
+            if nd < 0 or nd > max_len - len(seq) - 1:
+                continue
+            rec(seq + [t], nd)
+    rec([], 0)
+    return out
+
+
+def render_shape(toks, spaced):
+    if spaced:
+        return ' '.join(toks)
+    out = []
+    for k, t in enumerate(toks):
+        if k and t not in '()' and toks[k - 1] not in '()':
+            out.append(' ')
+        out.append(t)
+    return ''.join(out)
+
+
+PAREN_SHAPES = paren_shapes(6)
 
 
 def prepare(tier):
@@ -246,7 +298,7 @@ def token_seq(draw, depth=0, max_items=6):
             out.extend(token_seq(draw, depth + 1, max_items=4))
             out.append(')')
         elif what == 'empty':
-            if out or draw(st.integers(0, 7)) == 0:
+            if out or draw(st.integers(0, 1)) == 0:      # an empty pair may be first in the text / in its group
                 out.extend(['(', ')'])
             else:
                 out.append('f')
@@ -354,7 +406,21 @@ def _content_classes(text):
                 cl.add('has:comment')
             if '\n' in s:
                 cl.add('has:newline')
+    if _empty_pairs_first(ps):
+        cl.add('has:empty-pair-first')
     return sorted(cl)
+
+
+def _empty_pairs_first(ps):
+    """Indexes (into the scanned pieces) of every `(` that opens an empty pair `()` which is the first thing of the
+    text or of its group, i.e. not preceded by a token of the same group."""
+    idx = [i for i, (k, s) in enumerate(ps) if k != 'ws']
+    out = []
+    for n, i in enumerate(idx):
+        if ps[i] == ('punct', '(') and n + 1 < len(idx) and ps[idx[n + 1]] == ('punct', ')'):
+            if n == 0 or ps[idx[n - 1]] == ('punct', '('):
+                out.append(i)
+    return out
 
 
 def _site_of_piece(kind, s):
@@ -512,6 +578,143 @@ def attribute(tmpl, slot, inner, stored, cfg, sql):
     return recs
 
 
+def _accepts(tmpl, slot, text):
+    """How the flat template with `text` in `slot` (the other slot benign) is received: 'ok' | 'lex' (no token for
+    some character) | 'parse' (rejected by the grammar) | 'other'."""
+    from mindsdb_sql.exceptions import ParsingException
+    from sly.lex import LexError
+    key = (tmpl['id'], slot, text)
+    r = _ACC.get(key)
+    if r is None:
+        try:
+            _embed(tmpl, slot, text)
+            r = 'ok'
+        except LexError:
+            r = 'lex'
+        except ParsingException:
+            r = 'parse'
+        except Exception:
+            r = 'other'
+        _ACC[key] = r
+    return r
+
+
+def _fill_empty_pairs_first(text):
+    """(text with every first-in-text / first-in-group empty pair given a content `(x)`, where the pairs were)."""
+    ps = rawtext.scan(text)
+    first = _empty_pairs_first(ps)
+    where = set()
+    nonws = [i for i, (k, s) in enumerate(ps) if k != 'ws']
+    for i in first:
+        where.add('in-text' if i == nonws[0] else 'in-group')
+    out = []
+    for i, (k, s) in enumerate(ps):
+        out.append(s)
+        if i in first:
+            out.append('x')
+    return ''.join(out), sorted(where)
+
+
+def judge_rejected(tmpl, texts, cfg, sql, classes):
+    """The statement was rejected by the grammar.  Within the quantifier (balanced parentheses: checked by the caller;
+    every piece a token that the same slot accepts on its own) that is a failure of the raw-query grammar."""
+    recs = []
+    flat = {name: _accepts(tmpl, name, x) for name, x in texts.items()}
+    if all(v == 'ok' for v in flat.values()):
+        # every inner text is accepted in the flat statement: only the statement layout / the combination rejects
+        classes.append('rejected:only-in-combination')
+        recs.append(findings.record('inner-rejected', 'statement', ['accepted-when-flat-and-alone'], cfg,
+                                    'each inner text is accepted in the one-line statement with the other slot benign',
+                                    sql))
+        return recs
+    for name, x in texts.items():
+        if flat[name] != 'parse':
+            continue
+        c2 = dict(cfg, slot=name)
+        seen = set()
+        verdicts = {}
+        for k, s in rawtext.scan(x):
+            if k in ('ws', 'punct') or s in seen:
+                continue
+            seen.add(s)
+            verdicts[s] = (k, _accepts(tmpl, name, 'x ' + s + ' y'))
+        alone = [(s, k) for s, (k, v) in verdicts.items() if v == 'parse']
+        if alone:
+            # a single lexable piece that the raw query does not take
+            s0, k0 = alone[0]
+            classes.append('rejected:single-piece')
+            recs.append(findings.record('inner-rejected', _site_of_piece(k0, s0), ['single-piece'], c2,
+                                        f'`x {s0} y` is rejected on its own', sql))
+            continue
+        if any(v != 'ok' for k, v in verdicts.values()):
+            classes.append('rejected:piece-not-a-token')
+            continue
+        classes.append('rejected:balanced-tokens')
+        filled, where = _fill_empty_pairs_first(x)
+        feats = []
+        if where and _accepts(tmpl, name, filled) == 'ok':
+            feats.append('empty-pair-first')
+            feats.extend('empty-pair-first:' + w for w in where)
+        else:
+            feats.append('cause-unknown')
+            feats.extend(_layout_features(x))
+        recs.append(findings.record('inner-rejected', 'raw_query', feats, c2,
+                                    f'balanced inner text of accepted pieces is rejected: {x!r}'
+                                    + (f' (accepted as {filled!r})' if 'empty-pair-first' in feats else ''), sql))
+    return recs
+
+
+def _lost_tags(want, stored):
+    tags = set()
+    for k, s in rawtext.scan(want):
+        if k in ('sq', 'dq', 'var') and stored.count(s) < want.count(s):
+            tags.add('lost:variable' if k == 'var' else 'lost:string')
+    return sorted(tags) or ['lost:other']
+
+
+def judge_entry2(tmpl, texts, sql, cfg, main_equal, classes):
+    """(5) the same statement through get_lexer_parser(): lexer.tokenize -> parser.parse."""
+    from mindsdb_sql import get_lexer_parser
+    from vf.props.c02 import site_of
+    c2 = dict(cfg, entry='get_lexer_parser')
+    text = re.sub(r'[\s;]+$', '', sql)
+    try:
+        lexer, parser = get_lexer_parser('mindsdb')
+        tree = parser.parse(lexer.tokenize(text))
+    except RecursionError:
+        return []
+    except Exception as e:
+        classes.append('entry2:exception')
+        return [findings.record('missing-query', site_of(e), ['entry:get_lexer_parser'], c2,
+                                f'{type(e).__name__}: {str(e)[:200]}', sql)]
+    if tree is None:
+        classes.append('entry2:rejected')
+        return [findings.record('missing-query', 'entry:get_lexer_parser', ['rejected-only-by-hand-driven-parser'], c2,
+                                'parse_sql accepts the statement, parser.parse(lexer.tokenize(..)) returns None', sql)]
+    slots = slots_of(tree, tmpl)
+    if slots is None:
+        return []           # reported on the parse_sql path
+    out = []
+    for name, obj, attr in slots:
+        want = texts[name]
+        stored = getattr(obj, attr)
+        if not main_equal.get(name):
+            continue        # the parse_sql path already differs: reported there
+        if isinstance(stored, str) and rawtext.lenient(stored) == rawtext.lenient(want):
+            classes.append('entry2:stored-equal')
+            continue
+        classes.append('entry2:stored-differs')
+        if not isinstance(stored, str):
+            out.append(findings.record('missing-query', 'entry:get_lexer_parser', [], dict(c2, slot=name),
+                                       f'stored {stored!r} for inner {want!r}', sql))
+            continue
+        out.append(findings.record('text-differs', 'entry:get_lexer_parser',
+                                   ['equal-through-parse_sql'] + _lost_tags(want, stored), dict(c2, slot=name),
+                                   _first_diff(rawtext.lenient(want), rawtext.lenient(stored)) +
+                                   f' | inner {want!r} stored {stored!r}', sql))
+    return out
+
+
 def _baseline(tmpl):
     from mindsdb_sql import parse_sql
     b = _BASE.get(tmpl['id'])
@@ -558,10 +761,16 @@ def judge(case, col):
     key = (case['tmpl'], inner, inner2)
     try:
         tree = parse_sql(sql, 'mindsdb')
-    except (ParsingException, LexError):
-        classes.append('rejected')
+    except LexError:
+        classes.extend(['rejected', 'rejected:lex'])
         col.case(key, False, classes)
         return []
+    except ParsingException:
+        classes.append('rejected')
+        classes.extend(sorted(c for c in content if c == 'has:empty-pair-first'))
+        out = judge_rejected(tmpl, texts, cfg, sql, classes)
+        col.case(key, bool(out), classes)
+        return out
     except RecursionError:
         col.excluded('recursion')
         return []
@@ -576,6 +785,7 @@ def judge(case, col):
         out.append(findings.record('missing-query', tmpl['family'], [], cfg, 'no single NativeQuery node in the tree', sql))
         slots = []
     all_equal = bool(slots)
+    main_equal = {}
     for name, obj, attr in slots:
         want = texts[name]
         stored = getattr(obj, attr)
@@ -587,6 +797,7 @@ def judge(case, col):
             continue
         if rawtext.lenient(stored) == rawtext.lenient(want):
             classes.append('stored-equal')
+            main_equal[name] = True
             if rawtext.strict(stored) == rawtext.strict(want):
                 classes.append('stored-equal-layout-kept')
             # (2) re-parse
@@ -611,6 +822,8 @@ def judge(case, col):
             classes.append('stored-differs')
             c2 = dict(cfg, slot=name)
             out.extend(attribute(tmpl, name, want, stored, c2, sql))
+    # (5) the hand-driven lexer/parser pair
+    out.extend(judge_entry2(tmpl, texts, sql, cfg, main_equal, classes))
     # (3) the other fields
     if slots:
         for name, obj, attr in slots:
@@ -637,7 +850,23 @@ def run_shard(col, k, nshards, tier, seed):
             c['inner2'] = FIXED[(i * 7) % len(FIXED)]
         for rec in judge(c, col):
             col.fail(rec, c)
+    # every parenthesis shape up to 6 tokens in every embedding (tight, one-line) and, blank-separated, in the
+    # multi-line layout of a few templates
+    shapes = [(t, 0, False, n) for t in TEMPLATE_IDS for n in range(len(PAREN_SHAPES))]
+    shapes += [(t, 2, True, n) for t in more for n in range(len(PAREN_SHAPES))]
+    for i, (t, l, spaced, n) in enumerate(shapes):
+        if i % nshards != k:
+            continue
+        text = render_shape(PAREN_SHAPES[n], spaced)
+        c = {'tmpl': t, 'layout': l, 'inner': text, 'expect': text, 'origin': 'paren-shapes'}
+        if TEMPLATES[t]['q2']:
+            c['inner2'] = c['expect2'] = render_shape(PAREN_SHAPES[(n * 7 + 3) % len(PAREN_SHAPES)], not spaced)
+        for rec in judge(c, col):
+            col.fail(rec, c)
     if k == 0:
+        col.exhaustive_parts.append(f'{len(PAREN_SHAPES)} balanced sequences over ( ) and words up to 6 tokens x '
+                                    f'{len(TEMPLATE_IDS)} embedding templates (+ blank-separated in the multi-line '
+                                    f'layout of {len(more)} templates) = {len(shapes)} cases')
         col.exhaustive_parts.append(f'{len(FIXED)} hand-written inner texts x {len(TEMPLATE_IDS)} embedding templates '
                                     f'(+ 3 more statement layouts of {len(more)} templates) = {len(space)} cases')
     hyp.explore(col, cases(), judge, N[tier], seed)
